@@ -75,6 +75,7 @@ def run_case(case, ctx, mon):
 def gen_cases(ctx):
     rng = ctx.rng("cases")
     yield H.zipf_case(rng, ctx)
+    yield H.huge_list_case(rng)
     n = 900 if ctx.quick else 10**9
     for _ in range(n):
         yield H.gen_history_case(rng, ctx, big=0.12)
